@@ -22,6 +22,7 @@ RULE = (
     "empty (remove); the position directly in front of the set (layer creation) or the `let … in` extent (layer removal). For every step (any "
     "layout) the comments outside that region survive in order and the attribute-tree/wrapper oracle of C05 holds. Non-trivial = the target "
     "has >=1 sibling with attached trivia, or wrapper depth >=2, or history length >=2."
+    ' Every eighth case is a directed document (dynamic attribute next to its literal twin; `src = fetchgit { inherit rev; … }` with look-alike siblings) judged by a line-level locality oracle: the changed lines of an accepted edit lie inside the addressed binding.'
 )
 ASSUMPTIONS = base.ASSUMPTIONS + ["'comments attached to the removed binding' is read permissively (DESIGN 7/C04) so that nima's own attachment is never contradicted"]
 
